@@ -6,7 +6,7 @@ for d in sorted(glob.glob('/verif/seeded/*/meta.json')):
     m = json.load(open(d))
     rows.append((m['id'], m['property'], (m['summary'] or '').replace('|', '/').replace('\n', ' ')[:150],
                  ', '.join(m['caught_by_quick_checks']), 'missed at first' if m['missed_by_first_version_of_check'] else 'caught at once',
-                 (m.get('note') or '').replace('|', '/')[:160]))
+                 ((m.get('note') or '') + (' [superseded: patch applies to an earlier tree only]' if m.get('superseded') else '')).replace('|', '/')[:200]))
 print("| seed | property | change | caught by (quick) | first run | what the check lacked |")
 print("|---|---|---|---|---|---|")
 for r in rows:
